@@ -491,11 +491,22 @@ func StartWatchdog(limit time.Duration) {
 // BubbleGoroutines returns the stacks of goroutines of the current bubble
 // other than the caller, parsed from runtime.Stack.
 func BubbleGoroutines() []string {
-	buf := make([]byte, 4<<20)
+	buf := make([]byte, 8<<20)
 	n := runtime.Stack(buf, true)
+	gs := strings.Split(string(buf[:n]), "\n\n")
+	// the current bubble is the one the calling goroutine (first entry) is in;
+	// goroutines leaked by earlier runs live in other bubbles
+	bubble := ""
+	if len(gs) > 0 {
+		h := strings.SplitN(gs[0], "\n", 2)[0]
+		if i := strings.Index(h, "synctest bubble "); i >= 0 {
+			bubble = strings.TrimRight(h[i:], "]:")
+		}
+	}
 	var out []string
-	for _, g := range strings.Split(string(buf[:n]), "\n\n") {
-		if strings.Contains(strings.SplitN(g, "\n", 2)[0], "synctest bubble") {
+	for _, g := range gs {
+		h := strings.SplitN(g, "\n", 2)[0]
+		if bubble != "" && strings.Contains(h, bubble+"]") {
 			out = append(out, g)
 		}
 	}
@@ -534,5 +545,35 @@ func StuckReport(max int) string {
 	if len(out) > max {
 		out = out[:max]
 	}
+	return strings.Join(out, " || ")
+}
+
+// libraryGoroutines lists bubble goroutines that have a kafka-go frame
+// (condensed), excluding the caller; "" if none.
+func libraryGoroutines() string {
+	var out []string
+	for _, g := range BubbleGoroutines() {
+		if !strings.Contains(g, "github.com/segmentio/kafka-go.") && !strings.Contains(g, "github.com/segmentio/kafka-go/protocol") {
+			continue
+		}
+		if strings.Contains(g, "verif/sim.libraryGoroutines") {
+			continue
+		}
+		var frames []string
+		for _, l := range strings.Split(g, "\n")[1:] {
+			if strings.HasPrefix(l, "github.com/segmentio/kafka-go") {
+				f := strings.TrimPrefix(l, "github.com/segmentio/kafka-go")
+				if i := strings.LastIndex(f, "("); i > 0 {
+					f = f[:i]
+				}
+				frames = append(frames, f)
+				if len(frames) >= 3 {
+					break
+				}
+			}
+		}
+		out = append(out, strings.Join(frames, " < "))
+	}
+	sort.Strings(out)
 	return strings.Join(out, " || ")
 }
